@@ -26,9 +26,10 @@ REQUIRED = ["op.add", "op.add-list", "op.add-network", "op.remove_obstacle", "op
             "op.remove_traffic_sign", "op.remove_traffic_sign-list", "op.remove_traffic_light",
             "op.remove_traffic_light-list", "op.remove_intersection", "op.remove_intersection-list",
             "op.replace_lanelet_network", "op.erase_lanelet_network", "op.generate_object_id", "collision-predicted",
-            "re-add-after-removal", "hooked-state-checked", "nonpositive-ids"]
-EXHAUSTIVE = {"quick": "all operation sequences of length <= 2 over the fixed 18-operation alphabet",
-              "thorough": "all operation sequences of length <= 3 over the fixed 18-operation alphabet"}
+            "re-add-after-removal", "hooked-state-checked", "nonpositive-ids", "op.remove-stale.lanelet",
+            "op.remove-stale.sign", "op.remove-stale.intersection"]
+EXHAUSTIVE = {"quick": "all operation sequences of length <= 2 over the fixed 21-operation alphabet",
+              "thorough": "all operation sequences of length <= 3 over the fixed 21-operation alphabet"}
 ASSUMPTIONS = ["atomicity of list adds beyond the failing element is not demanded (elements before it stay added)",
                "a network is added with add_objects only while the scenario's network is empty; "
                "replace_lanelet_network is only issued with networks that do not collide with contained obstacles"]
@@ -159,6 +160,7 @@ FIXED_ALPHABET = [
     ("add", "L1"), ("add", "Os1"), ("add", "S3"), ("add", "Op3"), ("add", "I8"), ("add", "Od8"), ("add", "I9"),
     ("add-list", ("L2", "Oe2")), ("add-network", "N1"), ("remove", "L1"), ("remove", "Os1"), ("remove-list", ("I8",)),
     ("remove", "I8"), ("remove", "S3"), ("replace", "N2"), ("erase", None), ("gen", None), ("remove-stale", "Os1"),
+    ("remove-stale", "L1"), ("remove-stale", "S3"), ("remove-stale", "I8"),
 ]
 
 
@@ -316,8 +318,19 @@ def run(ctx):
                     # remove_obstacle with an obstacle that is not contained: documented as a warning, no change
                     if arg in live:
                         continue
-                    ctx.feature("op.remove_obstacle-stale")
-                    sc.remove_obstacle(U.make(arg))
+                    kind_, ids_, _ = U.spec[arg]
+                    if kind_ in ("static", "dynamic", "phantom", "environment"):
+                        ctx.feature("op.remove_obstacle-stale")
+                        sc.remove_obstacle(U.make(arg))
+                    else:
+                        # a network element that is NOT contained (its id may be in use by an object of another kind):
+                        # nothing is removed, so no id may become free
+                        if m.ids.get(ids_[0]) == kind_:
+                            continue  # an element of the same kind with this id is contained: that would be a real removal
+                        ctx.feature("op.remove-stale." + kind_)
+                        obj_ = U.make(arg)
+                        {"lanelet": sc.remove_lanelet, "sign": sc.remove_traffic_sign, "light": sc.remove_traffic_light,
+                         "intersection": sc.remove_intersection}[kind_](obj_)
                 elif op == "replace":
                     nid = U.net_ids(arg)
                     obst = {i for i, k in m.ids.items() if k in ("static", "dynamic", "phantom", "environment")}
@@ -500,7 +513,7 @@ def run(ctx):
             elif c < 0.84:
                 hist.append(("erase", None))
             elif c < 0.90:
-                hist.append(("remove-stale", rng.choice([k for k in keys if k.startswith("O")])))
+                hist.append(("remove-stale", rng.choice(keys)))
             else:
                 hist.append(("gen", None))
         ctx.fingerprint(["rnd", [[o, a] for o, a in hist]])
